@@ -39,6 +39,14 @@ TABLE = {
    text='exhaustive enumeration of 4 namespace classes x helper methods x subsets of optional parameters x {keyword, positional} x {sentinel, falsy} values x registration namespaces (9376 calls); the underlying method on the real server/client instance is replaced by a recorder that binds with the real method signature; identity of every given argument, the namespace rule and the returned value are checked',
    note='defaults of omitted non-namespace arguments and vestigial parameters are outside the property and skipped (listed in evidence)',
    tech='runtime monitoring: recorder bound to real signatures, exhaustive argument-subset grid'),
+ 'C08': dict(cat='fault_enumeration',
+   text='real Client/AsyncClient on a scripted engine.io transport against a scripted server: generated histories of connect(namespaces, auth value/callable/coroutine, wait) with every acceptance/refusal/silence plan, emits on connected and unconnected namespaces, server DISCONNECT, client disconnect(), engine.io CLOSE and transport loss (also mid binary packet and with callbacks outstanding), automatic and manual reconnects; after every step namespaces/get_sid/connected are compared with the script-side model and connect/connect_error/disconnect handler invocations are accounted per namespace and connection epoch',
+   note='network replaced below engine.io (its state machine is the real one); two known findings pinned by the existing suite are matched by mechanism only; a connection that went through CONNECT_ERROR on / with other namespaces is abandoned unjudged after the finding is recorded',
+   tech='runtime monitoring: scripted peer + script-side acceptance model, fault injection at frame boundaries'),
+ 'C09': dict(cat='exploration',
+   text='real Client/AsyncClient on a scripted transport: generated sequences of server EVENT/BINARY_EVENT/ACK/BINARY_ACK packets with colliding ids on several namespaces interleaved with client emits (with/without callbacks) and call(); token-matched accounting of handler invocations, ACKs sent (id, namespace, payload) and callback invocations; ack ids unique among outstanding ones; call() through scripted ACK/timeout orders on virtual waits',
+   note='background handler tasks run in FIFO order at quiescent points (threaded client) or as real asyncio tasks on a virtual-time loop',
+   tech='runtime monitoring: token-matched exactly-once accounting + ack model on the client side'),
 }
 # filled in as checks are built; see bottom of file for the not-built reason
 
